@@ -4,7 +4,9 @@ from vp import core, mmd, globals as G
 
 E = mmd.EXT
 D = mmd.EXT_DEFAULT
-NOTES = b"# Head One\n\ntext[^a] more[#c] and [?g] see [Head One][] \"q\" <x@y.z>\n\n[^a]: note a\n\n[#c]: Cite\n\n[?g]: gloss\n\n| a | b |\n|---|---|\n| c | d |\n[Cap]\n"
+# kitchen sink: one construct per engine stack / hash (headers + TOC, tables, footnotes, citations, glossary, abbreviations, link definitions, metadata, images as assets)
+NOTES = (b"Title: T\nfoo: bar\n\n{{TOC}}\n\n# Head One\n\ntext[^a] more[#c] and [?g] [>ab] see [Head One][] and [Cap][] [%foo] \"q\" <x@y.z> [l] ![i](i.png)\n\n## Head Two ##\n\nSetext\n------\n\n"
+         b"[^a]: note a\n\n[#c]: Cite\n\n[?g]: gloss\n\n[>ab]: Abbreviation\n\n[l]: http://l.m/ \"LT\"\n\n| a | b |\n|---|---|\n| c | d |\n[Cap]\n\nterm\n: def\n")
 OPML = (b"<?xml version=\"1.0\" encoding=\"utf-8\"?>\n<opml version=\"1.0\">\n<head><title>T</title></head>\n<body>\n<outline text=\"H\" _note=\"n &lt;a@b.c&gt;&#10;\">\n"
         b"<outline text=\"I\" _note=\"m\"/>\n</outline>\n</body>\n</opml>\n")
 ASSETS = os.path.join(core.VERIF, "fixtures", "assets").encode()
